@@ -110,7 +110,7 @@ struct Sim<'a> {
     bare_dates: Vec<i64>,
 }
 
-fn snapshot_digest(s: &VerifSnapshot) -> u64 {
+pub fn snapshot_digest(s: &VerifSnapshot) -> u64 {
     let mut d = Digest::new();
     d.u(s.next_id).u(s.book.len() as u64).u(s.buffer.len() as u64).u(s.trade_log.len() as u64);
     for o in s.book.iter() {
@@ -143,7 +143,7 @@ fn canon_tick(has_next: bool, fills: &[rotala::exchange::jura_v1::Fill], orders:
     )
 }
 
-fn canon_quotes(q: &PenelopeQuoteByDate) -> String {
+pub fn canon_quotes(q: &PenelopeQuoteByDate) -> String {
     let mut v: Vec<&PenelopeQuote> = q.values().collect();
     v.sort_by(|a, b| a.symbol.cmp(&b.symbol));
     v.iter().map(|q| format!("{}:{:?}/{:?}@{}", q.symbol, q.bid, q.ask, q.date)).collect::<Vec<_>>().join(",")
@@ -828,7 +828,7 @@ struct Gen {
     issued: usize,
 }
 
-fn price_near(rng: &mut Rng, ds: &DatasetSpec, sym: &str, from: usize) -> f64 {
+pub fn price_near(rng: &mut Rng, ds: &DatasetSpec, sym: &str, from: usize) -> f64 {
     // look ahead in the dataset for a quote of this symbol: the generator may peek, the SUT may not
     let n = ds.n();
     let start = from.min(n - 1);
